@@ -1195,14 +1195,14 @@ Proof.
     + destruct (Hidle H) as (E1 & E2). unfold a'. rewrite view_set_claims_same. split; assumption.
     + unfold a'. rewrite view_set_claims_other by exact Hne. apply i_idle.
       apply (resp_last_other tr t' t es); [congruence|exact H].
-  - intros r p H. destruct (owns_dec (view a t) r) as [Hown|Hno]; [now apply Hretd_t|].
+  - intros r p H. destruct (owns_dec (view a t) r) as [Hown|Hno]; [exact (Hretd_t r p Hown H)|].
     destruct (Hother _ Hno) as (E1 & E2).
     assert (E : effc g' a' r = effc g a r) by (unfold effc, a'; cbn; now rewrite E1, E2).
     rewrite E in H. apply (retd_cl_ext g a tr _ i_retd r p H).
   - intros t' sv r s H1 H2 H3 p Hp. rewrite Hvs in H1. rewrite Hvr in H2.
-    destruct (Nat.eq_dec t' t) as [->|Hne]; [eapply Hrs_t; eauto|].
+    destruct (Nat.eq_dec t' t) as [->|Hne]; [exact (Hrs_t sv r s H1 H2 H3 p Hp)|].
     assert (Hno : ~ owns (view a t) r).
-    { intros Ho. apply Hne. eapply i_excl; [left; exact H2|exact Ho]. }
+    { intros Hox. apply Hne. eapply i_excl; [left; exact H2|exact Hox]. }
     destruct (Hother _ Hno) as (E1 & E2).
     assert (E : effc g' a' r = effc g a r) by (unfold effc, a'; cbn; now rewrite E1, E2).
     rewrite E in Hp. rewrite last_sb_mild in H3 by exact Hm.
